@@ -38,6 +38,8 @@ func main() {
 		for _, id := range ids {
 			fmt.Println(id)
 		}
+	case "hoistconds":
+		os.Exit(hoistCondsMain())
 	case "flipifs":
 		os.Exit(flipIfsMain())
 	case "renamelocals":
